@@ -258,6 +258,12 @@ pub(crate) fn accepts(input: &[u8]) -> bool {
     true
 }
 
+/// verif-hooks: the raw broadword accept scan (`accepts` is crate-private).
+#[cfg(feature = "verif-hooks")]
+pub fn verif_broadword_accepts(input: &[u8]) -> bool {
+    accepts(input)
+}
+
 /// Validate UTF-8 with the broadword accept scan, falling back to the scalar
 /// validator for the precise [`Utf8Error`].
 ///
